@@ -1,5 +1,6 @@
 import SpgProofs.Properties.C08
 import SpgProofs.Properties.C08b
+import SpgProofs.Properties.C08c
 #print axioms Spg.C08.unCap_eq
 #print axioms Spg.C08.allCap_iff
 #print axioms Spg.C08.list_contribution_indep
@@ -16,3 +17,7 @@ import SpgProofs.Properties.C08b
 #print axioms Spg.C08.body_indep_of_budget
 #print axioms Spg.C08.no_environment_inputs
 #print axioms Spg.C08.list_decisions_exact
+#print axioms Spg.C08c.log_count_eq_sum
+#print axioms Spg.C08c.capBits_spec
+#print axioms Spg.C08c.capFactor_pos
+#print axioms Spg.C08c.wl_bits_formula
